@@ -267,6 +267,65 @@ class Swapped(object):
         return False
 
 
+HANG_TIMEOUT = 10
+
+
+def kill_descendants():
+    """SIGKILL every descendant process of this worker except the Lean driver"""
+    children = {}
+    for name in os.listdir('/proc'):
+        if not name.isdigit():
+            continue
+        try:
+            with open('/proc/%s/stat' % name) as f:
+                st = f.read()
+            comm = st[st.index('(') + 1:st.rindex(')')]
+            ppid = int(st[st.rindex(')') + 2:].split()[1])
+        except (OSError, ValueError):
+            continue
+        children.setdefault(ppid, []).append((int(name), comm))
+    todo, victims = [os.getpid()], []
+    while todo:
+        for pid, comm in children.get(todo.pop(), []):
+            if comm.startswith('doitdrv'):
+                continue
+            victims.append(pid)
+            todo.append(pid)
+    for pid in victims:
+        try:
+            os.kill(pid, signal.SIGKILL)
+        except OSError:
+            pass
+
+
+class Hang(Exception):
+    """the implementation did not come back (e.g. it stopped reading a pipe the child still writes to)"""
+
+
+def guarded(fn, timeout=None):
+    """run fn() in a helper thread; when it does not finish in time, kill this process's children (the spawned
+    command) so that blocked readers see EOF, and report the hang instead of hanging the check"""
+    box = {}
+
+    def body():
+        try:
+            box['v'] = fn()
+        except BaseException as ex:  # noqa
+            box['e'] = ex
+    real = (sys.stdout, sys.stderr)
+    th = threading.Thread(target=body, daemon=True)
+    th.start()
+    th.join(timeout or HANG_TIMEOUT)
+    if th.is_alive():
+        kill_descendants()
+        th.join(5)
+        sys.stdout, sys.stderr = real
+        raise Hang('implementation did not return within %ss' % (timeout or HANG_TIMEOUT))
+    if 'e' in box:
+        raise box['e']
+    return box['v']
+
+
 def call(fn):
     """(returned, raised)"""
     try:
@@ -285,14 +344,15 @@ def io_arg(capture):
 def run_py(case):
     action, task, exc = _mods()
     fn = make_callable(case)
+    lo, le = Rec(), Rec()
     if case.get('direct'):
-        # PythonAction without a task: capture is on, no kwargs magic
-        if isinstance(fn, tuple):
-            act = action.PythonAction(fn[0], fn[1])
-        else:
-            act = action.PythonAction(fn)
+        # PythonAction.execute called directly with live stream objects that are *not* sys.stdout/sys.stderr
+        t = task.Task('t', [fn], verbosity=case.get('v'), io=io_arg(case.get('capture', True)))
+        act = t.actions[0]
+        t.init_options()
         with Swapped() as sw:
-            live = action_live(case.get('v'), sw)
+            v = case.get('v')
+            live = (None, None) if v == 0 else (None, le) if v == 1 else (lo, le)
             ret, raised = call(lambda: act.execute(*live))
             ident = sw.identity()
     else:
@@ -303,16 +363,8 @@ def run_py(case):
             ident = sw.identity()
     oc, tname = outcome_of(ret, raised)
     return {'outcome': oc, 'type': tname, 'out': act.out, 'err': act.err, 'result': canon_res(act.result),
-            'values': canon_vals(act.values), 'O': sw.O.getvalue(), 'E': sw.E.getvalue(),
-            'restored': ident}
-
-
-def action_live(v, sw):
-    if v == 0:
-        return (None, None)
-    if v == 1:
-        return (None, sw.E)
-    return (sw.O, sw.E)
+            'values': canon_vals(act.values), 'O': lo.getvalue() + sw.O.getvalue(),
+            'E': le.getvalue() + sw.E.getvalue(), 'restored': ident}
 
 
 # ----------------------------------------------------------------------------------------------
@@ -383,6 +435,10 @@ def make_cmd_action(case, workdir):
 
 
 def run_cmd(case):
+    return guarded(lambda: _run_cmd(case))
+
+
+def _run_cmd(case):
     action, task, exc = _mods()
     work = common.scratch_dir('c17cmd')
     try:
@@ -437,6 +493,10 @@ def run_cmd(case):
 # kind 'task'
 
 def run_task(case):
+    return guarded(lambda: _run_task(case))
+
+
+def _run_task(case):
     action, task, exc = _mods()
     work = common.scratch_dir('c17task')
     try:
